@@ -1,3 +1,5 @@
+use std::path::Path;
+
 use dst::families::Family;
 use dst::runner::{Mode, run_one};
 
@@ -12,31 +14,64 @@ impl log::Log for StderrLog {
     fn flush(&self) {}
 }
 
+fn arg_after(args: &[String], flag: &str) -> Option<String> {
+    args.iter().position(|a| a == flag).and_then(|i| args.get(i + 1)).cloned()
+}
+
+fn base_seed(args: &[String]) -> u64 {
+    arg_after(args, "--seed")
+        .or_else(|| std::env::var("VERIF_SEED").ok())
+        .and_then(|s| s.parse::<u64>().ok())
+        .unwrap_or(20_260_924)
+}
+
 fn main() {
     if std::env::var("DST_LOG").is_ok() {
         let _ = log::set_logger(&StderrLog);
         log::set_max_level(log::LevelFilter::Trace);
     }
     let args: Vec<String> = std::env::args().collect();
+    let threads = std::env::var("DST_THREADS").ok().and_then(|s| s.parse().ok()).unwrap_or(16usize);
     match args.get(1).map(String::as_str) {
+        Some("check") => {
+            let id = args.get(2).expect("property id");
+            let tier = arg_after(&args, "--tier")
+                .or_else(|| std::env::var("VERIF_TIER").ok())
+                .unwrap_or_else(|| "quick".into());
+            let Some(spec) = dst::props::spec(id) else {
+                eprintln!("no check registered for {id}");
+                std::process::exit(2);
+            };
+            let r = dst::check::run_check(&spec, &tier, base_seed(&args), threads);
+            std::process::exit(r.exit);
+        }
+        Some("replay") => {
+            let path = args.get(2).expect("replay file");
+            match dst::check::replay_file(Path::new(path)) {
+                Ok((same_key, same_digest, prop, msg)) => {
+                    if same_key {
+                        println!("VIOLATION property={prop} replay={path}");
+                        println!("  reproduced: {msg} (digest {})", if same_digest { "identical" } else { "DIFFERENT" });
+                        std::process::exit(1);
+                    }
+                    println!("not reproduced: {path}");
+                    std::process::exit(if same_digest { 0 } else { 3 });
+                }
+                Err(e) => {
+                    eprintln!("replay error: {e}");
+                    std::process::exit(2);
+                }
+            }
+        }
         Some("one") => {
             let fam = Family::parse(&args[2]).expect("family");
             let seed: u64 = args[3].parse().expect("seed");
             let out = run_one(fam, Mode::Search(seed));
-            if args.get(4).map(String::as_str) == Some("-q") {
-                println!("{}", dst::report::sample_trace(&out, 100000));
-                for v in dst::oracle::check_all(&out) {
-                    println!("VIOLATION {v:?}");
-                }
-                return;
-            }
-            println!("plan: role={:?} sched={:?} p_ext={} cut={:?} ending={:?}", out.plan.role, out.plan.sched, out.plan.p_ext, out.plan.cut, out.plan.ending);
-            for e in &out.hist {
-                println!("{:5} {:6}ms {:?}", e.seq, e.t_ms, e.ev);
-            }
-            println!("steps={} polls={} sim_ms={} panic={:?} budget_hit={} conn_done={:?} setup_error={:?} runnable_left={} armed_left={}",
-                out.stats.steps, out.stats.task_polls, out.stats.sim_ms, out.panic, out.budget_hit, out.conn_done, out.setup_error, out.runnable_left, out.armed_left);
-            println!("digest={:016x} sig={:016x} choices={}", out.digest, out.signature, out.choices.len());
+            println!("{}", dst::report::sample_trace(&out, 100_000));
+            println!(
+                "steps={} polls={} sim_ms={} panic={:?} budget_hit={} conn_done={:?} setup_error={:?} runnable_left={} armed_left={} digest={:016x} sig={:016x} choices={}",
+                out.stats.steps, out.stats.task_polls, out.stats.sim_ms, out.panic, out.budget_hit, out.conn_done, out.setup_error, out.runnable_left, out.armed_left, out.digest, out.signature, out.choices.len()
+            );
             for v in dst::oracle::check_all(&out) {
                 println!("VIOLATION {v:?}");
             }
@@ -45,12 +80,37 @@ fn main() {
             let fam = Family::parse(&args[2]).expect("family");
             let seed: u64 = args[3].parse().expect("seed");
             let n: u64 = args[4].parse().expect("runs");
-            let o = dst::batch::run_batch(fam, seed, 0, n, 16, 600.0, |_| true);
-            println!("runs={} wall={:.2}s distinct={} steps={} polls={} sim_ms={} faults={:?} roles={:?}", o.evaluations, o.wall_s, o.signatures.len(), o.steps, o.task_polls, o.sim_ms, o.faults, o.by_role);
+            let o = dst::batch::run_batch(fam, seed, 0, n, threads, 3600.0, |_| true);
+            println!(
+                "runs={} wall={:.2}s distinct={} steps={} polls={} sim_ms={} faults={:?} probes={:?} roles={:?}",
+                o.evaluations, o.wall_s, o.signatures.len(), o.steps, o.task_polls, o.sim_ms, o.faults, o.probes, o.by_role
+            );
             for (k, f) in &o.found {
                 println!("{:6}x {}  first idx={} seed={}  :: {}", f.count, k, f.first_idx, f.first_seed, f.example.as_ref().unwrap().msg);
             }
         }
-        _ => eprintln!("usage: dst one <family> <seed> | batch <family> <seed> <runs>"),
+        Some("determinism") => {
+            // run each seed of each family twice (fresh threads, different batch positions) and compare digests
+            let n: u64 = args.get(2).and_then(|s| s.parse().ok()).unwrap_or(2000);
+            let seed = base_seed(&args);
+            let mut bad = 0u64;
+            let mut total = 0u64;
+            for fam in dst::families::ALL_FAMILIES {
+                let d1 = dst::batch::digests(*fam, seed, n, threads, false);
+                let d2 = dst::batch::digests(*fam, seed, n, if threads > 1 { 1.max(threads / 4) } else { 1 }, true);
+                for i in 0..n as usize {
+                    total += 1;
+                    if d1[i] != d2[i] {
+                        bad += 1;
+                        if bad < 10 {
+                            println!("NONDETERMINISTIC family={} idx={} {:016x} != {:016x}", fam.name(), i, d1[i], d2[i]);
+                        }
+                    }
+                }
+            }
+            println!("determinism: {total} seeds run twice, {bad} differ");
+            std::process::exit(if bad == 0 { 0 } else { 2 });
+        }
+        _ => eprintln!("usage: dst check <prop> [--tier quick|thorough] [--seed N] | replay <file> | one <family> <run-seed> | batch <family> <seed> <runs> | determinism [n]"),
     }
 }
